@@ -157,6 +157,78 @@ def sigmoidA (enhs enls : List Rat) : Except Err (List (Rat × Rat)) :=
 def tanhA (e2ls e2hs : List Rat) : Except Err (List (Rat × Rat)) :=
   seqE ((e2ls.zip e2hs).map (fun p => tanhI p.1 p.2))
 
+/-! ## overflow of `numpy.exp`
+
+Beyond 709.78 `numpy.exp` returns `inf` (and underflows to `0.0` below −745.13, which is an ordinary
+rational here).  `EV` = a finite value or `+inf`; the extended forms below are what the driver
+executes for `exp`, the logistic function and `tanh`.  On finite arguments they ARE the functions
+above (`Props/C05.lean`: `expIE_fin`, `sigmoidIE_fin`, `tanhIE_fin`); with `inf` they follow IEEE:
+`1 + inf = inf`, `c / inf = 0`, `x ≤ inf`. -/
+
+inductive EV where
+  | fin (r : Rat)
+  | pinf
+  deriving DecidableEq, Repr
+
+def EV.le : EV → EV → Bool
+  | .fin a, .fin b => decide (a ≤ b)
+  | _, .pinf => true
+  | .pinf, .fin _ => false
+
+/-- `Interval(a, b)` with possibly infinite bounds -/
+def mkIE (a b : EV) : Except Err (EV × EV) :=
+  if EV.le a b then .ok (a, b) else .error .Assertion
+
+def EV.add1 : EV → EV
+  | .fin r => .fin (1 + r)
+  | .pinf => .pinf
+
+/-- `c / v` (finite: `c / inf = 0`) -/
+def EV.rdiv (c : Rat) : EV → Rat
+  | .fin r => c / r
+  | .pinf => 0
+
+def EV.le0 : EV → Bool
+  | .fin r => decide (r ≤ 0)
+  | .pinf => false
+
+def EV.ge0 : EV → Bool
+  | .fin r => decide (r ≥ 0)
+  | .pinf => true
+
+def expIE (elo ehi : EV) : Except Err (EV × EV) := mkIE elo ehi
+
+def expAE (l : List (EV × EV)) : Except Err (List (EV × EV)) :=
+  if l.all (fun p => EV.le p.1 p.2) then .ok l else .error .Assertion
+
+def sigmoidIE (enh enl : EV) : Except Err (Rat × Rat) :=
+  match mkIE enh enl with
+  | .error e => .error e
+  | .ok e =>
+    match mkIE e.1.add1 e.2.add1 with
+    | .error e => .error e
+    | .ok d =>
+      if d.1.le0 && d.2.ge0 then .error .ZeroDivision
+      else mkI (EV.rdiv 1 d.2) (EV.rdiv 1 d.1)
+
+def tanhIE (e2l e2h : EV) : Except Err (Rat × Rat) :=
+  match mkIE e2l e2h with
+  | .error e => .error e
+  | .ok e =>
+    match mkIE e.1.add1 e.2.add1 with
+    | .error e => .error e
+    | .ok d =>
+      if d.1.le0 && d.2.ge0 then .error .ZeroDivision
+      else
+        match mkI (EV.rdiv 2 d.2) (EV.rdiv 2 d.1) with
+        | .error e => .error e
+        | .ok q => mkI (1 - q.2) (1 - q.1)
+
+def sigmoidAE (l : List (EV × EV)) : Except Err (List (Rat × Rat)) :=
+  seqE (l.map (fun p => sigmoidIE p.1 p.2))
+def tanhAE (l : List (EV × EV)) : Except Err (List (Rat × Rat)) :=
+  seqE (l.map (fun p => tanhIE p.1 p.2))
+
 /-! ## sin, cos (CORA case analysis on the reduced endpoints) -/
 
 inductive Shape where
